@@ -251,6 +251,24 @@ package wal
 //@ ensures result != nil ==> t.lastSyncedOffset.v == old(t.lastSyncedOffset.v)
 //@ note trusted: the flush runs on the WAL's sync goroutine and reports through a callback (channels and goroutines are outside the verified subset); sequential view: everything appended before the call is synced when it returns nil
 
+//@ func wal.drainSyncRequestsChannel
+//@ trusted
+//@ modifies nothing
+//@ ensures forall i int :: 0 <= i && i < len(result) ==> result[i] != nil
+//@ note trusted: non-blocking receives from the sync request channel (only non-nil callbacks are ever sent, see runSync)
+
+// The group-sync routine: the synced offset advances only after a successful flush,
+// and only to the offset that had been appended when the flush was started.
+//
+//@ func wal.runSync
+//@ property C09 C03
+//@ requires t.ctx != nil && t.currentSegment != nil && t.syncLatency != nil && t.writeErrors != nil
+//@ callback * pure
+//@ assume received func(error): v != nil because "doSync is the only sender on syncRequests and is only given non-nil callbacks (Sync, AppendAndSync)"
+//@ loop 0 invariant t.ctx != nil && t.currentSegment != nil && t.syncLatency != nil && t.writeErrors != nil
+//@ assert at call Store#0: err == nil && val == lastAppendedOffset
+//@ modifies *
+
 //@ func wal.Clear
 //@ property C09
 //@ requires walMetrics(t) && t.currentSegment != nil && t.readOnlySegments != nil && t.ctx != nil && t.segmentSize <= 2147483647
